@@ -406,8 +406,49 @@ def _run(ctx, n, with_model):
         lock.finish()
 
 
+def constructor_grid(ctx):
+    """EVERY model class whose from_value takes a meta mapping and an indent_by (all entry kinds and postings, whatever
+    other arguments they need), with every indent_by of the grid (and a 7-blank one): the items of the freshly built
+    model - which has no sibling to copy from - are indented by parent indent + indent_by, and an item added through the
+    mapping afterwards takes the same indent."""
+    import inspect, random
+    import construct as cons
+    r = random.Random('c18-constructors')
+    for rule, cls in sorted(models.TREE_MODELS.items()):
+        if not hasattr(cls, 'from_value'):
+            continue
+        sig = inspect.signature(cls.from_value)
+        if 'meta' not in sig.parameters or 'indent_by' not in sig.parameters:
+            continue
+        for iby in INDENT_BYS + ['       ']:
+            for pi in (['  ', '\t'] if 'indent' in sig.parameters else [None]):
+                rep = {'route': 'constructor-grid', 'cls': cls.__name__, 'indent_by': iby, 'indent': pi}
+                try:
+                    args = cons.build(r, cls, {n: False for n in cons.toggles(cls, sig)}, sig)
+                    args['meta'] = {'zz': 'v', 'yy': decimal.Decimal(2)}
+                    args['indent_by'] = iby
+                    if pi is not None:
+                        args['indent'] = pi
+                    m = cls.from_value(**args)
+                except Exception as e:
+                    ctx.oracle_fail(f'C18:raises:constructor-grid:{cls.__name__}', f'{type(e).__name__}: {str(e)[:200]}', rep)
+                    continue
+                ctx.case(('constructor-grid', cls.__name__, iby, pi))
+                want = (pi or '') + iby
+                got = [x.indent for x in m.raw_meta]
+                if got != [want, want]:
+                    ctx.oracle_fail('C18:indent-rule:construct', f'{cls.__name__}.from_value(meta=..., indent_by={iby!r}' + (f', indent={pi!r}' if pi else '') +
+                                    f') gives items indented {got!r}, rule: {want!r}', rep)
+                    continue
+                m.meta['ww'] = 'later'
+                got = [x.indent for x in m.raw_meta]
+                if got != [want] * 3:
+                    ctx.oracle_fail('C18:indent-rule:construct-then-map', f'{cls.__name__} built with indent_by={iby!r}: after meta["ww"] = ... the items are indented {got!r}, rule: {want!r}', rep)
+
+
 def run(ctx):
     update_comment_grid(ctx)
+    constructor_grid(ctx)
     _run(ctx, ctx.scale(2500, 30000), ctx.extra.get('model_available', True))
 
 
@@ -420,10 +461,10 @@ def replay(ctx, data):
     if case.get('route') == 'commentfmt':
         raw = models.BlockComment._format_value(case['indent'], case['comment'])
         return all(l.startswith(case['indent'] + ';') for l in raw.split('\n'))
-    if case.get('route') == 'comment-update':
+    if case.get('route') in ('comment-update', 'constructor-grid'):
         import check
         c = check.Ctx('C18', 'quick', ctx.seed)
-        update_comment_grid(c)
+        (update_comment_grid if case['route'] == 'comment-update' else constructor_grid)(c)
         return not c.oracle_fails
     fails = run_case(case)
     for sig, what in fails:
